@@ -131,3 +131,13 @@ claim("C14",
       "no theorem about Distributed.step itself.",
       "exact differential comparison distributed vs delegated strategies + step-model correspondence", "5.14",
       category="translation_validation")
+claim("C13",
+      "Axiom-free theorems on the model of get_schedule_from_csv (repaired): no generated signal takes effect before it is "
+      "sent; reading back the change-point-compressed events yields exactly the scheduled target at every row time; the "
+      "upstream reader is refuted for per-vehicle schedules (D4, fixed). Model tied by exact correspondence on random CSVs. "
+      "PARTIAL: generate_schedule itself (flex band, bisection) is not modelled: rating, flexibility band (recomputed by the "
+      "implementation), charge flag (D2 found and fixed) and the end-to-end read back through a Scenario are checked on generated "
+      "scenarios and grid series.",
+      "Trusted: Coq kernel + VM; harness incl. the calendar rule for signal times ('9am one/two days before') computed by the harness; "
+      "Python csv/datetime as glue. No axioms.",
+      "Coq proof over the schedule reader model + exact correspondence + end-to-end generator checks", "5.13")
